@@ -18,7 +18,7 @@ from runner.pbt import CaseResult, explore
 
 ID = 'C12'
 LEVEL = 'exploration'
-RULE = ('two generated families. (A) client level, exact virtual time: 1-4 concurrent requests through kopf\'s API client (api.patch/api.get with '
+RULE = ('three generated families. (A) client level, exact virtual time: 1-4 concurrent requests through kopf\'s API client (api.patch/api.get with '
         'the real credentials vault and the real re-authentication task) against per-request scripts of faults (5xx, 403, 429 with Retry-After '
         'header/details, other 4xx, 401, connection errors, disconnects, client timeouts), server-side revocation of a session at a generated '
         'instant, backoff configurations (empty, scalar, tuple, list, re-iterable without len), enforce_retry_after, login delays and a login '
@@ -26,8 +26,11 @@ RULE = ('two generated families. (A) client level, exact virtual time: 1-4 concu
         'what each caller got. (B) operator level: closed-loop histories where one object\'s PATCHes fail in bursts under generated '
         'error_backoffs/error_delays while other objects keep changing; oracle = containment and recovery invariants (operator alive, other '
         'objects handled on time, the failing object silent for the configured delay growing per consecutive error and reset by a success, '
-        'convergence after the faults stop and the object changes again). Non-trivial: (A) a request that escalates after retries, a '
-        'Retry-After larger than the backoff, or >=2 requests blocked by one 401; (B) an escalation followed by recovery')
+        'convergence after the faults stop and the object changes again). (C) unexpected errors inside the processing of one object: its '
+        'persisted last-handled state is damaged (no JSON any more) and repaired at generated instants, so that every cycle on a damaged '
+        'view raises before any handler runs (the index function is the witness of each attempted cycle); same containment, growth/reset '
+        'and recovery invariants. Non-trivial: (A) a request that escalates after retries, a '
+        'Retry-After larger than the backoff, or >=2 requests blocked by one 401; (B) an escalation followed by recovery; (C) a failed cycle followed by recovery')
 ASSUMPTIONS = [
     'Retry-After is given in whole seconds (header) or details.retryAfterSeconds (body), as Kubernetes sends it',
     'backoff configurations are re-iterable (one-shot generators are outside the documented domain)',
@@ -478,7 +481,138 @@ def check_operator(sc, run, res, delays):
             nxt = min([c['t0'] for c in cycles if int(c['rv']) >= v['rv']], default=None)
             res.fail('C12/throttled-too-long', f'o0: the change at t={v["t"]} (rv={v["rv"]}) was due for processing at t={d} (after the request retries and the '
                      f'documented silence {delays} following the escalations {[(e["t"], e["i"]) for e in escalations]}), but it was processed at t={nxt}')
-    # --- other objects are not delayed
+    others_not_delayed(run, res)
+    body = recovery(sc, run, res, calls0, f'escalations: {escalations}')
+    if escalations:
+        res.label('escalation')
+    if any(e['i'] >= 1 for e in escalations):
+        res.label('consecutive-escalations')
+    if any(e['i'] == 0 for e in escalations[1:]):
+        res.label('reset-by-success')
+    res.nontrivial = bool(escalations) and body is not None
+
+
+# ------------------------------------------------------------------------------------------ (C) unexpected errors while processing
+# Not an API failure but an error inside the framework's own processing of one object: somebody damaged what the operator persists
+# on the object (the last-handled state or a progress record is no JSON any more), so that every processing cycle of that object
+# raises before any handler runs. The index function (which runs first in a cycle) is the witness of every cycle that was attempted.
+DAMAGED = ['{not json', 'garbage', '[1, 2']
+
+
+@st.composite
+def unexpected_scenarios(draw):
+    delays = draw(st.sampled_from([[], [2], [1, 3, 7], [1, 3, 7], {'reiter': [2, 5]}, {'tuple': [4, 4, 9]}]))
+    handlers = [{'kind': 'index', 'id': 'idx'}, {'kind': 'event', 'id': 'ev'},
+                {'kind': 'create', 'id': 'c', 'duration': 0}, {'kind': 'update', 'id': 'u', 'duration': 0}]
+    spec = {'handlers': handlers, 'settings': {'queueing.error_delays': delays, 'persistence.consistency_timeout': 1.0,
+                                               'queueing.idle_timeout': draw(st.sampled_from([5.0, 0.5, 2.0]))}}
+    # (a damaged progress record raises only in the cycles that select that handler; the last-handled state is read in every cycle)
+    key = 'kopf.zalando.org/last-handled-configuration'
+    dts = st.sampled_from([0.0, 0.1, 0.5, 1.0, 1.0, 2.0, 3.0, 4.0, 8.0, 12.0])
+    vals = st.integers(0, 9)
+    x_edit = st.builds(lambda v, dt: {'a': 'edit_spec', 'obj': 0, 'v': v, 'dt': dt}, vals, dts)
+    x_note = st.builds(lambda v, dt: {'a': 'annotate', 'obj': 0, 'v': v, 'dt': dt}, vals, dts)
+    other = st.builds(lambda o, v, dt: {'a': 'edit_spec', 'obj': o, 'v': v, 'dt': dt}, st.integers(1, 2), vals, dts)
+    create_other = st.builds(lambda o, v, dt: {'a': 'create', 'obj': o, 'v': v, 'dt': dt}, st.integers(1, 2), vals, dts)
+    damage = st.builds(lambda v, dt: {'a': 'annotate_raw', 'obj': 0, 'key': key, 'value': v, 'dt': dt}, st.sampled_from(DAMAGED), dts)
+    repair = st.builds(lambda dt: {'a': 'annotate_raw', 'obj': 0, 'key': key, 'value': None, 'dt': dt}, dts)
+    actions = [{'a': 'create', 'obj': 0, 'v': 0, 'dt': draw(st.sampled_from([0.5, 1.0, 3.0]))}]
+    actions += draw(st.lists(st.one_of(x_edit, x_edit, x_note, other, other, create_other, damage, damage, repair), min_size=4, max_size=18))
+    return {'mode': 'unexpected', 'seed': draw(st.integers(0, 9999)), 'spec': spec, 'key': key,
+            'cluster': {'status_sub': draw(st.booleans())}, 'actions': actions}
+
+
+def run_unexpected(sc, res):
+    run = cl.Run(sc)
+    try:
+        delays = plain(sc['spec']['settings']['queueing.error_delays'])
+        try:
+            run.run()
+            # the damage is repaired; after every throttling delay has surely elapsed the object changes once more (the probe)
+            run.do({'a': 'annotate_raw', 'obj': 0, 'key': sc['key'], 'value': None, 'dt': 0.0})
+            run.advance(max(delays or [0]) + 15.0)
+            run.t_probe = run.sim.world.now
+            run.do({'a': 'edit_spec', 'obj': 0, 'v': 777, 'dt': 0.0})
+            run.advance(30.0)
+        except Livelock as e:
+            res.fail('C12/livelock', str(e))
+        check_unexpected(sc, run, res, delays)
+        res.summary = cl.summarize(run, max_calls=30)
+    finally:
+        run.close()
+
+
+def is_damaged(view, key):
+    v = ((view.get('metadata') or {}).get('annotations') or {}).get(key)
+    return v is not None and v in DAMAGED
+
+
+def check_unexpected(sc, run, res, delays):
+    sim = run.sim
+    key = sc['key']
+    op = run.op()
+    if op is None or not op.alive:
+        res.fail('C12/operator-stopped', f'the operator is not running at the end: exit={op.exit if op else None}')
+        return
+    if len(run.incarnations) != 1:
+        res.fail('C12/operator-stopped', f'the operator had to be restarted: {run.incarnations}')
+    cycles = [c for c in sim.trace if c.get('k') == 'call' and c.get('name') == 'o0' and c['hid'] == 'idx']
+    failures = []      # dict(t, i): processing cycles of o0 that raised (their view carried the damage), i = failed cycles directly before
+    n = 0
+    for c in cycles:
+        if is_damaged(c['view'], key):
+            failures.append({'t': c['t0'], 'i': n, 'rv': c['rv']})
+            n += 1
+        else:
+            n = 0
+    intervals = []
+    for e in failures:
+        if not delays:
+            continue
+        want = delays[min(e['i'], len(delays) - 1)]
+        intervals.append((e['t'], e['t'] + want))
+        nxt_req = min([r['t'] for r in sim.cluster.requests if r['name'] == 'o0' and r['t'] > e['t'] + TOL], default=None)
+        nxt_call = min([c['t0'] for c in sim.trace if c.get('k') == 'call' and c.get('name') == 'o0' and c['t0'] > e['t'] + TOL], default=None)
+        nxt = min([t for t in (nxt_req, nxt_call) if t is not None], default=None)
+        if nxt is not None and nxt < e['t'] + want - TOL:
+            res.fail('C12/throttle-too-short', f'o0: unexpected error #{e["i"] + 1} in a row (damaged {key}) in the cycle at t={e["t"]}: error_delays {delays} '
+                     f'require {want}s of silence, but the object was processed again at t={nxt} (after {nxt - e["t"]:.6f}s)')
+    # a damaged view must not get through to the change handlers as if nothing had happened
+    for c in sim.trace:
+        if c.get('k') == 'call' and c.get('name') == 'o0' and c['kind'] in ('create', 'update', 'event') and is_damaged(c['view'], key):
+            res.fail('C12/harness', f'{c["hid"]} ran on a view with a damaged {key}: the damage does not raise, the scenario family is void')
+            break
+    # every change is processed when due: at once, or right after the documented silence
+    for v in sim.cluster.history:
+        if v['name'] != 'o0' or v['writer'] != 'env' or v['type'] != 'MODIFIED' or v['t'] > run.t_probe - 1.0:
+            continue
+        d = v['t']
+        for _ in range(50):
+            moved = False
+            for a, b in intervals:
+                if a - TOL <= d < b - TOL:
+                    d, moved = b, True
+            if not moved:
+                break
+        seen = [c for c in cycles if int(c['rv']) >= v['rv'] and c['t0'] <= d + 0.5]
+        if not seen:
+            nxt = min([c['t0'] for c in cycles if int(c['rv']) >= v['rv']], default=None)
+            res.fail('C12/throttled-too-long', f'o0: the change at t={v["t"]} (rv={v["rv"]}) was due for processing at t={d} (after the documented silence '
+                     f'{delays} following the failed cycles {[(e["t"], e["i"]) for e in failures]}), but it was processed at t={nxt}')
+    others_not_delayed(run, res)
+    calls0 = [c for c in sim.trace if c.get('k') == 'call' and c.get('name') == 'o0' and c['kind'] in ('create', 'update')]
+    body = recovery(sc, run, res, calls0, f'failed cycles: {failures}')
+    if failures:
+        res.label('unexpected-error')
+    if any(e['i'] >= 1 for e in failures):
+        res.label('consecutive-unexpected-errors')
+    if any(e['i'] == 0 for e in failures[1:]):
+        res.label('unexpected:reset-by-success')
+    res.nontrivial = bool(failures) and body is not None
+
+
+def others_not_delayed(run, res):
+    sim = run.sim
     judged = 0
     for t, act, eff in run.performed:
         if act['a'] in ('edit_spec', 'create') and act.get('obj') in (1, 2) and eff:
@@ -497,25 +631,22 @@ def check_operator(sc, run, res, delays):
             if not got:
                 res.fail('C12/other-object-delayed', f'{name}: changed at t={t} but its {hid} handler did not start within 0.5s, '
                          f'while o0 was failing/throttled; calls: {[(c["hid"], c["t0"]) for c in sim.trace if c.get("k") == "call" and c.get("name") == name][:8]}')
-    # --- recovery
+
+
+def recovery(sc, run, res, calls0, ctx):
+    sim = run.sim
     body = sim.cluster.objects.get((KEX, 'default', 'o0'))
     if body is not None:
         after = [c for c in calls0 if c['t0'] >= run.t_probe - TOL and c['outcome'] == 'ok']
         if not after:
-            res.fail('C12/no-recovery', f'o0: changed at t={run.t_probe} after the faults stopped and all delays elapsed, but no handler ran; escalations: {escalations}')
+            res.fail('C12/no-recovery', f'o0: changed at t={run.t_probe} after the faults stopped and all delays elapsed, but no handler ran; {ctx}')
         dcfg = sc['spec'].get('diffbase_storage')
         last = cl.read_last_handled(body, dcfg)
         if last is None or last.get('spec') != cl.essence(body).get('spec'):
             res.fail('C12/no-recovery', f'o0: at quiescence the last-handled state {last} differs from the current one {cl.essence(body)}')
         if cl.raw_progress_keys(body, sc['spec'].get('progress_storage'), ['c', 'u']):
             res.fail('C12/no-recovery', 'o0: progress records are left at quiescence')
-    if escalations:
-        res.label('escalation')
-    if any(e['i'] >= 1 for e in escalations):
-        res.label('consecutive-escalations')
-    if any(e['i'] == 0 for e in escalations[1:]):
-        res.label('reset-by-success')
-    res.nontrivial = bool(escalations) and body is not None
+    return body
 
 
 def run_case(scenario):
@@ -526,12 +657,15 @@ def run_case(scenario):
         res.summary = {'results': out['results'], 'logins': out['logins'],
                        'requests': [(r['name'], r['sid'], round(r['t'], 6), r['outcome'], r['t_done']) for r in out['requests']][:40]}
         return res
+    if scenario['mode'] == 'unexpected':
+        run_unexpected(scenario, res)
+        return res
     run_operator(scenario, res)
     return res
 
 
 def scenarios():
-    return st.one_of(client_scenarios(), operator_scenarios())
+    return st.one_of(client_scenarios(), client_scenarios(), operator_scenarios(), operator_scenarios(), unexpected_scenarios())
 
 
 def run_shard(ctx):
